@@ -101,6 +101,7 @@ impl Run {
             let a = mk_addr(np, n, 20);
             std::sync::Arc::make_mut(&mut w.names).add(n, &a);
         }
+        std::sync::Arc::make_mut(&mut w.names).add("OTHERIBC", "ibc/0000000000000000000000000000000000000000000000000000000000000BAD");
         for n in ["val1", "val2", "val3", "val4"] {
             let a = mk_addr(&format!("{np}valoper"), n, 20);
             std::sync::Arc::make_mut(&mut w.names).add(n, &a);
@@ -324,7 +325,11 @@ impl Run {
                 } else {
                     None
                 };
-                let (h, o) = self.w.hook_call(&ch, &from, amt, &msg, limited);
+                let den = match call.get("den").and_then(|x| x.as_str()) {
+                    Some(d) => self.ad(d),
+                    None => IBC_DENOM.to_string(),
+                };
+                let (h, o) = self.w.hook_call(&ch, &from, amt, &msg, limited, &den);
                 call["s"] = json!(self.w.names.nm(&h));
                 if o.ok {
                     if let Some(e) = exp {
